@@ -143,6 +143,7 @@ type Exec struct {
 	ufCalls  map[string][]ufCall // Ackermann-free: we use real UFs; this records calls for replay realisation
 	errCount int
 	uniq     int
+	seals        []*sealRec
 	lockEvents   []lockEvent
 	atomicStores []Value
 	killed       bool
